@@ -12,6 +12,7 @@ use std::thread;
 use crate::error::{FerrousError, Result};
 use crate::protocol::{RespFrame, serialize_resp_frame, RespParser};
 use crate::storage::StorageEngine;
+use crate::storage::commands::executor::ServerCommandAdapter;
 
 /// AOF persistence engine
 pub struct AofEngine {
@@ -113,15 +114,19 @@ impl AofEngine {
         Ok(())
     }
     
-    /// Load commands from AOF file
-    pub fn load(&self, storage: &Arc<StorageEngine>) -> Result<()> {
+    /// Load commands from AOF file: run them again, in file order. Returns how many it held
+    pub fn load(&self, storage: &Arc<StorageEngine>) -> Result<usize> {
         if !self.file_path.exists() {
-            return Ok(());
+            return Ok(0);
         }
         
         let file = File::open(&self.file_path)?;
         let mut reader = BufReader::new(file);
         let mut parser = RespParser::new();
+        let executor = ServerCommandAdapter::new(Arc::clone(storage));
+        // The log starts in database 0; its SELECT records say where the commands after them ran
+        let mut db = 0;
+        let mut replayed = 0;
         
         // Read and replay all commands. The file is binary (keys and values are
         // arbitrary bytes): feed it to the parser in chunks, not as lines of text.
@@ -135,18 +140,18 @@ impl AofEngine {
             
             while let Some(frame) = parser.parse()? {
                 // Execute command against storage
-                // This is simplified - in reality we'd need the full command processor
                 match frame {
                     RespFrame::Array(Some(parts)) if !parts.is_empty() => {
                         // Process command
-                        self.replay_command(storage, &parts)?;
+                        self.replay_command(storage, &executor, &parts, &mut db);
+                        replayed += 1;
                     }
                     _ => continue,
                 }
             }
         }
         
-        Ok(())
+        Ok(replayed)
     }
     
     /// Append a command to the AOF
@@ -248,23 +253,39 @@ impl AofEngine {
         Ok(())
     }
     
-    /// Replay a command during AOF loading
-    fn replay_command(&self, storage: &Arc<StorageEngine>, parts: &[RespFrame]) -> Result<()> {
+    /// Replay a command during AOF loading, through the command executor scripts use as well
+    /// (the direct handlers belong to the server, which does not exist yet at this point)
+    fn replay_command(&self, storage: &Arc<StorageEngine>, executor: &ServerCommandAdapter, parts: &[RespFrame], db: &mut usize) {
         // Extract command name
         let cmd_frame = &parts[0];
         let command = match cmd_frame {
             RespFrame::BulkString(Some(bytes)) => String::from_utf8_lossy(bytes).to_uppercase(),
-            _ => return Ok(()), // Skip invalid commands
+            _ => return, // Skip invalid commands
         };
         
-        // Only replay write commands
+        // Lazy expiry, as before a command a client sends
+        storage.expire_before_command(*db, &command, parts.iter().skip(1).filter_map(|p| match p {
+            RespFrame::BulkString(Some(bytes)) => Some(bytes.as_slice()),
+            _ => None,
+        }));
+        
+        // Commands are logged whether or not they succeed: one that was refused when it was
+        // logged is refused again here, and is no reason to give up the rest of the file
         match command.as_str() {
-            "SET" | "DEL" | "EXPIRE" | "LPUSH" | "RPUSH" | "SADD" | "ZADD" | "HSET" => {
-                // Simplified replay - in reality we'd call the actual command handlers
-                // This is just to demonstrate the concept
-                Ok(())
+            "SELECT" => {
+                if let Some(RespFrame::BulkString(Some(bytes))) = parts.get(1) {
+                    match String::from_utf8_lossy(bytes).parse::<usize>() {
+                        Ok(index) if index < storage.database_count() => *db = index,
+                        _ => {}
+                    }
+                }
             }
-            _ => Ok(()), // Skip read-only commands
+            "EVAL" => {
+                let _ = crate::storage::commands::lua::handle_eval_with_db(storage, parts, *db);
+            }
+            _ => {
+                let _ = executor.execute_with_context(parts, 0, *db);
+            }
         }
     }
 }
